@@ -55,11 +55,16 @@ SEQS = [(a, b) for a in DYN for b in DYN] + \
     [(a, b, c) for a in DYN for b in DYN for c in DYN]
 SEQ_PER_PLAN = 48
 NSEQ = (len(SEQS) + SEQ_PER_PLAN - 1) // SEQ_PER_PLAN
-COUNT = {'quick': NPLANS + NSRV + NSEQ, 'thorough': NPLANS + NSRV + NSEQ}
+# fourth pass (sampled): sessions of different identities served
+# concurrently by one engine under seeded schedules; every request must be
+# evaluated under the identity established for ITS session
+NCONC = {'quick': 100, 'thorough': 3000}
+COUNT = {'quick': NPLANS + NSRV + NSEQ + NCONC['quick'],
+         'thorough': NPLANS + NSRV + NSEQ + NCONC['thorough']}
 BUDGET_S = {'quick': 80, 'thorough': 600}
 DETERMINISM = {'quick': 8, 'thorough': 30}
 CHUNK = 4
-EXHAUSTIVE = {'quick': True, 'thorough': True}
+EXHAUSTIVE = {'quick': False, 'thorough': False}
 RULE = ('complete product: %d certificate shapes (absent; 0/1/2 distinct '
         'common names, the same name twice, three names x EKU absent / serverAuth only / clientAuth / both / anyExtendedKeyUsage / serverAuth+any / other usages; real DER) '
         'x enable_tls_client_auth on/off x %d plugin configurations (none, '
@@ -70,17 +75,27 @@ RULE = ('complete product: %d certificate shapes (absent; 0/1/2 distinct '
         'given in the file, as a constructor argument, or left to its '
         'default); plus ALL sequences of 2 and 3 plugin answers over %d '
         'behaviours on ONE session (the answer changes between requests of '
-        'a connection). Non-trivial: every case (each is a distinct '
+        'a connection). These three passes are complete enumerations in '
+        'every run. A fourth, SAMPLED pass (100 / 3000 plans) runs 2-4 '
+        'sessions of different identities concurrently on one engine under '
+        'seeded schedules (threaded world): each request must be evaluated '
+        'under the identity established for its own session - what it '
+        'creates is owned by that identity, it reaches only that '
+        'identity\'s objects (all under the owner-only default policy), and '
+        'that identity\'s own objects are never refused. Non-trivial: every case (each is a distinct '
         'configuration); distinct = case number (+ "srv").' % (
             len(CERTS), len(PLUGINS), BEHAVIOURS, len(REQUESTS), CASES,
             len(DYN)))
-PROBES = ['engine_entered', 'auth_refused', 'second_plugin_vouched',
+PROBES = ['concurrent_plans', 'concurrent_exchanges_judged',
+          'concurrent_foreign_object_refused', 'engine_entered', 'auth_refused', 'second_plugin_vouched',
           'plugin_failed_then_refused', 'cn_fallback_without_plugins',
           'users_5xx_recorded', 'sessions_made_by_kmip_server',
           'tls_flag_from_default', 'tls_flag_from_kwarg',
           'requests_on_reused_session']
 REAL_VS_STUB = {
-    'real': ['KmipSession._handle_message_loop + authenticate',
+    'real': ['KmipSession.run threads of different identities on one '
+             'KmipEngine under the deterministic scheduler (fourth pass)',
+             'KmipSession._handle_message_loop + authenticate',
              'KmipServer.__init__/start/serve/_setup_connection_handler/stop '
              'and KmipServerConfig on a real configuration file (second pass)',
              'auth.utils (certificate / EKU / CN extraction on real DER)',
@@ -111,7 +126,161 @@ def case_number(ce, tl, pl, rq):
     return ((ce * len(TLS) + tl) * len(PLUGINS) + pl) * len(REQUESTS) + rq
 
 
+def gen_concurrent(r, index):
+    from sim import conc, gen
+    nact = r.choice([2, 2, 3, 3, 4])
+    actors = [{'cn': 'user%d' % i} for i in range(nact)]
+    if r.random() < 0.25:
+        # a session that establishes no identity at all runs beside them
+        actors.append({'cn': 'nobody', 'nocert': True} if r.random() < 0.5
+                      else {'cn': 'twocn', 'cns': ['user0', 'user1']})
+    ctx = gen.Ctx(r, nactors=len(actors))
+    scripts = []
+    labels = []
+    for ai in range(nact):
+        sc = []
+        mine = []
+        for j in range(r.randint(2, 5)):
+            x = r.random()
+            if j == 0 or x < 0.3:
+                first = conc.simple_keypair(ctx) if r.random() < 0.25 else \
+                    conc.simple_create(ctx)
+                items = [first]
+                if r.random() < 0.4:
+                    # another owner's object addressed from inside the
+                    # batch that holds the slow item
+                    if labels and r.random() < 0.7:
+                        items.append({'op': r.choice(['Get', 'GetAttributes']),
+                                      'uid': '@' + r.choice(labels)})
+                    else:
+                        items.append({'op': 'Get'})
+                sc.append({'ver': [1, 2], 'items': items, 'cont': 1})
+                mine.append(first['label'])
+                labels.append(first['label'])
+            elif x < 0.6 and mine:
+                sc.append({'ver': [1, 2], 'items': [{
+                    'op': r.choice(['Get', 'GetAttributes', 'Activate',
+                                    'GetAttributeList']),
+                    'uid': '@' + r.choice(mine)}]})
+            elif x < 0.85 and labels:
+                sc.append({'ver': [1, 2], 'items': [{
+                    'op': r.choice(['Get', 'GetAttributes', 'Activate',
+                                    'GetAttributeList', 'Revoke']),
+                    'uid': '@' + r.choice(labels)}]})
+                if sc[-1]['items'][0]['op'] == 'Revoke':
+                    sc[-1]['items'][0].update({'code': 1})
+            else:
+                sc.append({'ver': [1, 2], 'items': [
+                    {'op': 'Locate', 'attrs': []}]})
+        scripts.append(sc)
+    for ai in range(nact, len(actors)):
+        scripts.append([{'ver': [1, 2], 'items': [{
+            'op': r.choice(['Get', 'Locate', 'Query']),
+            'uid': '@' + r.choice(labels), 'attrs': [], 'funcs': [1]}]}
+            for _ in range(r.choice([1, 2]))])
+    return conc.plan_of(r, index, actors, scripts)
+
+
+def execute_concurrent(plan):
+    from sim import conc
+    from sim.props import c10
+    probes = dict((p, 0) for p in PROBES)
+    mine = []
+
+    def flag(oracle, **det):
+        mine.append({'sig': {'oracle': oracle, 'why': det.get('why')},
+                     'detail': det})
+
+    def judge(pl, complete, own, resolve):
+        creator = {}
+        # the default policy opens public keys to everybody; symmetric and
+        # private keys are owner-only
+        public = set()
+        for h in complete:
+            resp = h.get('resp')
+            if resp is None:
+                continue
+            for op, it in zip(h['req']['items'], resp.items):
+                for u in conc.created_ids(op, it):
+                    creator[u] = h['actor']
+                    if u == it['payload'].get('public_uid'):
+                        public.add(u)
+        for u, a in sorted(creator.items()):
+            cn = pl['actors'][a]['cn']
+            if u in own and own[u] != cn:
+                flag('object-owned-by-another-identity', why=None, uid=u,
+                     creator=cn, owner=own[u])
+        for h in complete:
+            resp = h.get('resp')
+            if resp is None:
+                continue
+            a = pl['actors'][h['actor']]
+            unidentified = a.get('nocert') or len(a.get('cns', [1])) != 1
+            probes['concurrent_exchanges_judged'] += 1
+            uids = conc.sent_uids(h['frame'])
+            placeholder = None
+            for k, (op, it) in enumerate(zip(h['req']['items'],
+                                           resp.items)):
+                if unidentified:
+                    if it['status'] == 0:
+                        flag('request-served-without-identity',
+                             why=op['op'])
+                    continue
+                made = conc.created_ids(op, it)
+                u = uids[k] if k < len(uids) and uids[k] else placeholder
+                if made:
+                    placeholder = made[0]
+                if op['op'] == 'Locate' and it['status'] == 0:
+                    for x in it['payload'].get('uids', []):
+                        if x in creator and creator[x] != h['actor'] \
+                                and x not in public:
+                            flag('served-under-another-identity',
+                                 why='Locate', uid=x)
+                    continue
+                if op['op'] not in ('Get', 'GetAttributes', 'Activate',
+                                    'GetAttributeList', 'Revoke') or \
+                        u not in creator or u in public:
+                    continue
+                if creator[u] != h['actor']:
+                    if it['status'] == 0:
+                        flag('served-under-another-identity', why=op['op'],
+                             uid=u, requester=a['cn'],
+                             owner=pl['actors'][creator[u]]['cn'])
+                    else:
+                        probes['concurrent_foreign_object_refused'] += 1
+                elif it['status'] != 0 and it['reason_name'] in (
+                        'PermissionDenied', 'ItemNotFound') and \
+                        (uids[k] if k < len(uids) else None) is None:
+                    # the placeholder of this very batch names the
+                    # requester's own new object
+                    flag('own-object-refused', why=op['op'], uid=u)
+    res = c10.execute(plan, judge=judge, linearize=False)
+    probes['concurrent_plans'] = 1
+    res['violations'] = mine
+    res['probes'] = probes
+    res['key'] = 'concurrent/' + res['key']
+    res['nontrivial'] = bool(res.get('faults', {}).get('lock_contention'))
+    res['sample'] = {'kind': 'concurrent',
+                     'identities': [x['cn'] for x in plan['actors']],
+                     'clients': [[[o['op'] for o in rq['items']]
+                                  for rq in sc] for sc in plan['scripts']],
+                     'preempts': plan['preempts']}
+    return res
+
+
+SHRINK_LISTS = ['preempts', 'tiebreaks']
+
+
+def simplify(plan):
+    if plan.get('kind') == 'concurrent':
+        from sim.props import c10
+        for c in c10.simplify(plan):
+            yield c
+
+
 def generate(rng, tier, index):
+    if index >= NPLANS + NSRV + NSEQ:
+        return gen_concurrent(rng, index - (NPLANS + NSRV + NSEQ))
     if index >= NPLANS + NSRV:
         lo = (index - NPLANS - NSRV) * SEQ_PER_PLAN
         return {'seqs': list(range(lo, min(len(SEQS), lo + SEQ_PER_PLAN))),
@@ -226,6 +395,8 @@ def tls_source(tl, pl):
 
 
 def execute(plan):
+    if plan.get('kind') == 'concurrent':
+        return execute_concurrent(plan)
     probes = dict((p, 0) for p in PROBES)
     viol = []
     server_mode = 'configs' in plan
